@@ -96,6 +96,16 @@ func (l vhLeadsOne) GetLeader(v hotstuff.View) hotstuff.ID {
 	return 2
 }
 
+// vhLeadsFrom: the replica under test (id 1) leads every view from `from` on; replica 2 the earlier ones.
+type vhLeadsFrom struct{ from hotstuff.View }
+
+func (l vhLeadsFrom) GetLeader(v hotstuff.View) hotstuff.ID {
+	if l.from != 0 && v >= l.from {
+		return 1
+	}
+	return 2
+}
+
 type vhRotation interface {
 	GetLeader(hotstuff.View) hotstuff.ID
 }
